@@ -5,24 +5,24 @@ import YorkieModel.Driver.LockerEngine
 namespace Yorkie.NamedLocker
 open Yorkie.Driver
 
-theorem grant_reach (st : LockerEngine.St) (sess : Nat) : Reach .current st.s (LockerEngine.grant st sess).s := by
+theorem grant_reach (st : LockerEngine.St) (sess : Nat) : Reach Variant.ofTree st.s (LockerEngine.grant st sess).s := by
   unfold LockerEngine.grant
   split
   · exact .init
   · rename_i s' r h; exact .step .init h
 
-theorem foldl_grant_reach (l : List Nat) : ∀ st : LockerEngine.St, Reach .current st.s (l.foldl LockerEngine.grant st).s := by
+theorem foldl_grant_reach (l : List Nat) : ∀ st : LockerEngine.St, Reach Variant.ofTree st.s (l.foldl LockerEngine.grant st).s := by
   induction l with
   | nil => intro st; exact .init
   | cons a t ih => intro st; exact reach_trans (grant_reach st a) (ih _)
 
 theorem grantReaders_reach (st : LockerEngine.St) (o : Nat) (excl : Bool) :
-    Reach .current st.s (LockerEngine.grantReaders st o excl).s := by
+    Reach Variant.ofTree st.s (LockerEngine.grantReaders st o excl).s := by
   unfold LockerEngine.grantReaders
   exact foldl_grant_reach _ st
 
 theorem grantWriter_reach (st : LockerEngine.St) (o : Nat) :
-    Reach .current st.s (LockerEngine.grantWriter st o).s := by
+    Reach Variant.ofTree st.s (LockerEngine.grantWriter st o).s := by
   unfold LockerEngine.grantWriter
   split
   · split
@@ -31,19 +31,22 @@ theorem grantWriter_reach (st : LockerEngine.St) (o : Nat) :
   · exact .init
 
 theorem settle_reach (st : LockerEngine.St) (o : Nat) (excl : Bool) :
-    Reach .current st.s (LockerEngine.settle st o excl).s :=
+    Reach Variant.ofTree st.s (LockerEngine.settle st o excl).s :=
   reach_trans (grantReaders_reach st o excl) (grantWriter_reach _ o)
 
 theorem opTry_reach (st : LockerEngine.St) (g sess k : Nat) :
-    Reach .current st.s (LockerEngine.opTry st g sess k).1.s := by
+    Reach Variant.ofTree st.s (LockerEngine.opTry st g sess k).1.s := by
   unfold LockerEngine.opTry
   split
   · rename_i h; exact .step .init h
-  · rename_i h; exact .step .init h
+  · rename_i h
+    split
+    · rename_i h2; exact .step (.step .init h) h2
+    · exact .step .init h
   · exact .init
 
 theorem opAcquire_reach (st : LockerEngine.St) (g sess k : Nat) (w : Bool) :
-    Reach .current st.s (LockerEngine.opAcquire st g sess k w).1.s := by
+    Reach Variant.ofTree st.s (LockerEngine.opAcquire st g sess k w).1.s := by
   unfold LockerEngine.opAcquire
   split
   · split
@@ -52,7 +55,7 @@ theorem opAcquire_reach (st : LockerEngine.St) (g sess k : Nat) (w : Bool) :
   · exact .init
 
 theorem opStart_reach (st : LockerEngine.St) (g : Nat) (o : String) (k : Nat) :
-    Reach .current st.s (LockerEngine.opStart st g o k).1.s := by
+    Reach Variant.ofTree st.s (LockerEngine.opStart st g o k).1.s := by
   unfold LockerEngine.opStart
   simp only
   split
@@ -64,7 +67,7 @@ theorem opStart_reach (st : LockerEngine.St) (g : Nat) (o : String) (k : Nat) :
     · exact opAcquire_reach { st with s := s1, nextSess := st.nextSess + 1 } _ _ _ _
 
 theorem opRelease_reach (st : LockerEngine.St) (g k : Nat) (w : Bool) (h : Bool × Nat × Nat) :
-    Reach .current st.s (LockerEngine.opRelease st g k w h).1.s := by
+    Reach Variant.ofTree st.s (LockerEngine.opRelease st g k w h).1.s := by
   unfold LockerEngine.opRelease
   simp only
   split
@@ -74,7 +77,7 @@ theorem opRelease_reach (st : LockerEngine.St) (g k : Nat) (w : Bool) (h : Bool 
       (settle_reach (LockerEngine.setG { st with s := s1 } g (fun x => { x with held := LockerEngine.dropHeld w k x.held })) _ _)
 
 theorem op_reach (st : LockerEngine.St) (g : Nat) (o : String) (k : Nat) :
-    Reach .current st.s (LockerEngine.op st g o k).1.s := by
+    Reach Variant.ofTree st.s (LockerEngine.op st g o k).1.s := by
   unfold LockerEngine.op
   simp only
   split
